@@ -223,6 +223,9 @@ def run_lines_parallel(binary, args, lines, jobs=8, timeout=3000, env=None):
     return res, errs
 
 
+KNOWN_OWNER = {}
+
+
 def known_findings(prop):
     """Return ({key: desc} of open findings, [fixed lines]) for a property."""
     open_, fixed = {}, []
@@ -233,8 +236,10 @@ def known_findings(prop):
         if not line or line.startswith("#"):
             continue
         m = re.match(r"finding: property=(\S+) key=(\S+) (.*)$", line)
-        if m and m.group(1) == prop:
+        if m:
+            # findings of other properties are recognised too (families are shared): reported under their owner
             open_[m.group(2)] = m.group(3)
+            KNOWN_OWNER[m.group(2)] = m.group(1)
         m = re.match(r"fixed: property=(\S+) (.*)$", line)
         if m and m.group(1) == prop:
             fixed.append(m.group(2))
